@@ -15,38 +15,14 @@ Import ListNotations.
 Local Open Scope nat_scope.
 
 (* ---- channels_closed_once ---------------------------------------------------------------- *)
-(* Full statement (FALSE on the tree, see C16_channels_closed_once_refuted):
-     forall flags calls sched, forallb entry calls = true ->
-       faulted (run New sched (pool0 calls) (world0 flags)) = false.
-   Honest variant: the ONLY fault any interleaving can reach is Server.Remove's send on
-   delSession after Server.shutdown closed it; no channel is ever closed twice or closed while
-   nil, and no send hits a closed send / wake / recv / done / listener channel. *)
-Theorem C16_channels_closed_once_partial :
-  forall cpk spk chm rch cbk calls sched f t,
-    forallb entry calls = true ->
-    run New sched (pool0 calls) (world0 cpk spk chm rch cbk) = Faulted f t -> f = SendOnClosed NDelS.
-Proof. exact channels_closed_once_partial. Qed.
-Print Assumptions C16_channels_closed_once_partial.
-
-(* ... and at full strength when no Server.Close is among the calls (sessions and listener only) *)
-Theorem C16_channels_closed_once_sessions :
+(* no interleaving of any number of close calls reaches a fault: no channel is closed twice or
+   while nil, no send hits a closed channel (=> no run-time panic of the modelled steps) *)
+Theorem C16_channels_closed_once :
   forall cpk spk chm rch cbk calls sched,
-    forallb entry_ns calls = true ->
+    forallb entry calls = true ->
     faulted (run New sched (pool0 calls) (world0 cpk spk chm rch cbk)) = false.
-Proof. exact channels_closed_once_sessions. Qed.
-Print Assumptions C16_channels_closed_once_sessions.
-
-Theorem C16_channels_closed_once_refuted :
-  exists calls sched, forallb entry calls = true /\
-    faulted (run New sched (pool0 calls) (world0 false false false true false)) = true.
-Proof. exact channels_closed_once_refuted. Qed.
-Print Assumptions C16_channels_closed_once_refuted.
-
-Theorem C16_remove_race_witness :
-  run New sched_remove_race (pool0 [SH0 false; SV0]) (world0 false false false true false)
-  = Faulted (SendOnClosed NDelS) 5.
-Proof. exact remove_race_refuted. Qed.
-Print Assumptions C16_remove_race_witness.
+Proof. exact channels_closed_once. Qed.
+Print Assumptions C16_channels_closed_once.
 
 (* the state bits and the channels agree in every reachable state *)
 Theorem C16_flags_match_channels :
@@ -139,7 +115,7 @@ Theorem C16_server_forgets :
 Proof. exact server_forgets. Qed.
 Print Assumptions C16_server_forgets.
 
-(* ---- regression: the step list of the tree before the four repairs ------------------------ *)
+(* ---- regression: the step list of the tree before the repairs ------------------------------ *)
 Theorem C16_double_close_ch_refuted :
   run Old sched_double_close (pool0 [SH0 false; SH0 false]) w_reg = Faulted (DoubleClose NDone) 6.
 Proof. exact double_close_ch_refuted. Qed.
@@ -166,6 +142,14 @@ Theorem C16_final_notice_lost_refuted :
   notice_lost (run New sched_notice_lost (pool0 [CC0 true; CX]) w_reg) = false.
 Proof. exact (conj final_notice_lost_refuted final_notice_repaired). Qed.
 Print Assumptions C16_final_notice_lost_refuted.
+
+(* Server.Remove's IsActive test, the whole Server.shutdown, then Remove's send (7 threads) *)
+Theorem C16_remove_race_refuted :
+  run Old sched_remove_race (pool0 [SH0 false; SV0]) (world0 false false false true false)
+  = Faulted (SendOnClosed NDelS) 5 /\
+  faulted (run New sched_remove_race (pool0 [SH0 false; SV0]) (world0 false false false true false)) = false.
+Proof. exact (conj remove_race_refuted remove_race_repaired). Qed.
+Print Assumptions C16_remove_race_refuted.
 
 (* ---- non-vacuity --------------------------------------------------------------------------- *)
 (* three concurrent calls (client Close, server-side Close, context cancel) on a registered
